@@ -25,7 +25,12 @@ func SmartRedirectSlashes(next http.Handler) http.Handler {
 			if rctx.RoutePath != "" {
 				path = rctx.RoutePath
 			} else {
-				path = r.URL.Path
+				// the string chi routes on: the escaped path when it is not the
+				// default encoding (an escaped '/' is not a separator)
+				path = r.URL.RawPath
+				if path == "" {
+					path = r.URL.Path
+				}
 			}
 			var method string
 			if rctx.RouteMethod != "" {
